@@ -9,6 +9,7 @@ require (
 	github.com/btcsuite/btcd/btcec/v2 v2.3.4
 	github.com/btcsuite/btcd/btcutil v1.1.5
 	github.com/btcsuite/btcd/chaincfg/chainhash v1.1.0
+	github.com/checksum0/go-electrum v0.0.0-20220912200153-b862ac442cf9
 	github.com/elementsproject/glightning v0.0.0-20250728212555-da2a093f26a9
 	github.com/elementsproject/peerswap v0.0.0
 	github.com/lightningnetwork/lnd v0.18.4-beta.rc1
@@ -31,7 +32,6 @@ require (
 	github.com/btcsuite/go-socks v0.0.0-20170105172521-4720035b7bfd // indirect
 	github.com/btcsuite/websocket v0.0.0-20150119174127-31079b680792 // indirect
 	github.com/cenkalti/backoff/v4 v4.3.0 // indirect
-	github.com/checksum0/go-electrum v0.0.0-20220912200153-b862ac442cf9 // indirect
 	github.com/containerd/continuity v0.3.0 // indirect
 	github.com/davecgh/go-spew v1.1.1 // indirect
 	github.com/decred/dcrd/crypto/blake256 v1.0.1 // indirect
